@@ -549,7 +549,7 @@ def rule_complete(ctx):
                 r.violation(k2, C.loc(f, j), f"the communities `{nm}` are joined without a guard for a single "
                             f"community: contract_nodes returns the node itself, it stays childless and the "
                             f"loop never ends (or the subgraph is never contracted)")
-    _returns_behind_loop(ctx, r, f, cfg, parents, w, "dividing loop `while tree.childless`")
+    _returns_behind_loop(ctx, r, f, cfg, parents, w, "dividing loop `while tree.childless`", breaks_count=True)
     f = b.lookup("build_agglom")
     C.require(f is not None, "build_agglom not found")
     fl = ctx.flow(f)
@@ -604,7 +604,7 @@ def _only_single_input(t):
     return fn is not None and not any(fn(n_) for n_ in range(2, 8))
 
 
-def _returns_behind_loop(ctx, r, f, cfg, parents, w, what):
+def _returns_behind_loop(ctx, r, f, cfg, parents, w, what, breaks_count=False):
     """(seed C05_2) a builder hands its tree out only behind its completing loop: every `return` is
     dominated by the loop's test and lies outside its body."""
     k = ctx.key(f, "C05-COMPLETE", "returns-behind-loop")
@@ -623,6 +623,13 @@ def _returns_behind_loop(ctx, r, f, cfg, parents, w, what):
             if ifs and ifs[0][1] and _only_single_input(ifs[0][0].test):
                 continue
             bad.append(n)
+    if breaks_count:
+        # (sensitivity map) leaving the loop with `break` reaches the return although its test still holds
+        for n in walk_local(f.node):
+            if isinstance(n, ast.Break) and id(n) in inside:
+                lp = C.enclosing_loops(f, n)
+                if lp and lp[0] is w:
+                    bad.append(n)
     if bad:
         ifs = C.enclosing_ifs(f, bad[0])
         cond = f" under `{C.unparse(ifs[0][0].test, 50)}`" if ifs else ""
@@ -1249,7 +1256,17 @@ def rule_progress(ctx):
                         and isinstance(c.args[0], ast.Name)}
                 if not (lens & groups and any(isinstance(c, ast.Compare) for c in ast.walk(n.test))):
                     continue
-                if n.body and isinstance(n.body[-1], (ast.Continue, ast.Break, ast.Return, ast.Raise)):
+                # taken when nothing happened: `len(groups) == len(before)`, `len(groups) == 1`, `<=`, `>=` — not `!=`
+                ops = [type(o) for c in ast.walk(n.test) if isinstance(c, ast.Compare) for o in c.ops]
+                if not ops or any(o in (ast.NotEq, ast.Lt, ast.Gt) for o in ops):
+                    continue
+                last = n.body[-1] if n.body else None
+                if isinstance(last, (ast.Break, ast.Return, ast.Raise)):
+                    esc = n
+                elif isinstance(last, ast.Continue) and any(
+                        isinstance(c, ast.Call) and isinstance(c.func, ast.Attribute) and c.func.attr.startswith("contract_nodes")
+                        for st in n.body for c in ast.walk(st)):
+                    # going round again is an escape only if the branch itself changed the loop's state
                     esc = n
             if esc is not None:
                 r.ok(cons, C.loc(f, esc), f"`if {C.unparse(esc.test, 50)}` leaves the iteration when the partition did nothing")
